@@ -147,3 +147,29 @@ func checkOpcodes(a, b []string) {
 	vxrt.Assert(all, "C13:hunks-omit-no-change")
 	vxrt.Assert(gshape, "C13:hunk-context-bounded")
 }
+
+// H_C13_popular: texts long enough for the "popular line" heuristic (200+ lines): distinct lines
+// with a blank line after every second one (the blank line is popular), the two texts differing by
+// one blank line removed or one distinct line changed somewhere; op-codes are checked as usual.
+func H_C13_popular() {
+	n := vxrt.Param("lines", 210)
+	var b []string
+	for i := 0; i < n; i++ {
+		if i%3 == 2 {
+			b = append(b, "")
+		} else {
+			b = append(b, "line "+string(rune('0'+i/100))+string(rune('0'+(i/10)%10))+string(rune('0'+i%10)))
+		}
+	}
+	a := append([]string(nil), b...)
+	pos := []int{2, 5, n/2 - n/2%3 + 2, n - 4 - (n-4)%3 + 2}[vxrt.Choice("where", 4)]
+	switch vxrt.Choice("difference", 3) {
+	case 0: // the stored text lacks one blank line that the received one has
+		a = append(a[:pos:pos], a[pos+1:]...)
+	case 1: // the received text lacks it
+		b = append(b[:pos:pos], b[pos+1:]...)
+	default: // a distinct line next to a blank one differs
+		a[pos-1] = "changed"
+	}
+	checkOpcodes(a, b)
+}
